@@ -101,3 +101,12 @@ theorem C01_parser_is_the_source (st : PState) (row : Bytes) :
 /-- the parser every generator starts with (`md.NewParser()` returns `&Parser{}`) is the model's initial state -/
 example : toSrc {} = { isSharpRoot := false, spaces := 0, sep := [] } := rfl
 end Gtree
+
+namespace Gtree
+/-- Tie to the source: "equally named siblings under one parent are a single node" rests on `Node.findChildByText`
+    (node.go, translated on this run): it returns the first child with the row's name — the child the model's
+    builder re-opens (`descend` through `splitAtName`) — or nil. -/
+theorem C01_find_child_is_the_source (h : Nat) (n x : Bytes) (ks : List T) :
+    Src.Node.findChildByText (toNode h (.mk n ks)) x = ((splitAtName x ks).map (fun p => p.2.1)).map (toNode (h + 1)) :=
+  findChildByText_is_splitAtName h n x ks
+end Gtree
